@@ -43,6 +43,11 @@ type c07Op struct {
 	Var   int    `json:"var,omitempty"`   // grant/request: text variant of the base command
 	Start int    `json:"start,omitempty"` // grant: seconds on the case clock
 	Exp   int    `json:"exp,omitempty"`
+	// sub-second parts (milliseconds 0..999, added to Start / Exp / Dt): grant times and the clock have
+	// millisecond resolution; the window is start <= now < expiry on the exact instants
+	StartMs int `json:"startms,omitempty"`
+	ExpMs   int `json:"expms,omitempty"`
+	DtMs    int `json:"dtms,omitempty"`
 	Sess  int    `json:"sess,omitempty"`  // request: selects among the admitted sessions
 	Shell bool   `json:"shell,omitempty"` // request: pty/shell flag of the exec request
 	PF    int    `json:"pf,omitempty"`    // request: 0 exec request; 1 local, 2 remote port-forward request (through the real checkPF)
@@ -50,7 +55,8 @@ type c07Op struct {
 }
 
 type c07Case struct {
-	Now0 int     `json:"now0"`
+	Now0   int     `json:"now0"`
+	Now0Ms int     `json:"now0ms,omitempty"`
 	Ops  []c07Op `json:"ops"`
 }
 
@@ -123,7 +129,19 @@ type c07Grant struct {
 }
 
 func (g c07Grant) String() string {
-	return fmt.Sprintf("{type=%d cmd=%q start=%+ds exp=%+ds K%d}", g.Type, g.Cmd, (g.Start-verifAuthzT0.UnixNano())/1e9, (g.Exp-verifAuthzT0.UnixNano())/1e9, g.Key+1)
+	return fmt.Sprintf("{type=%d cmd=%q start=%s exp=%s K%d}", g.Type, g.Cmd, c07Ms((g.Start-verifAuthzT0.UnixNano())/1e6), c07Ms((g.Exp-verifAuthzT0.UnixNano())/1e6), g.Key+1)
+}
+
+// c07Ms prints a case-relative time in milliseconds as seconds ("+2s", "+2.500s", "-0.001s").
+func c07Ms(ms int64) string {
+	if ms%1000 == 0 {
+		return fmt.Sprintf("%+ds", ms/1000)
+	}
+	sign, a := "+", ms
+	if ms < 0 {
+		sign, a = "-", -ms
+	}
+	return fmt.Sprintf("%s%d.%03ds", sign, a/1000, a%1000)
 }
 
 func c07FromReal(a authgrants.Authgrant) c07Grant {
@@ -238,9 +256,11 @@ type c07UK struct {
 	k int
 }
 
+func (uk c07UK) String() string { return fmt.Sprintf("(%q,K%d)", uk.u, uk.k+1) }
+
 func c07Run(c c07Case, v *vlib.Verdict) {
-	nowSec := c.Now0
-	restore := verifAuthzInstallThunks(func() time.Time { return verifAuthzAt(nowSec) })
+	nowMs := int64(c.Now0)*1000 + int64(c.Now0Ms) // the case clock, milliseconds
+	restore := verifAuthzInstallThunks(func() time.Time { return verifAuthzAtMs(nowMs) })
 	defer restore()
 	z := verifAuthzNewServer(true)
 
@@ -271,13 +291,17 @@ func c07Run(c c07Case, v *vlib.Verdict) {
 	for i, op := range c.Ops {
 		switch op.Op {
 		case "advance":
-			nowSec += op.Dt
+			nowMs += int64(op.Dt)*1000 + int64(op.DtMs)
+			if nowMs%1000 != 0 {
+				labels["clock:sub-second"] = true
+			}
 		case "grant":
-			user := verifAuthzUsers[op.User]
+			user := verifAuthzUsers[op.User%len(verifAuthzUsers)]
 			uk := c07UK{user, op.Key}
 			gt := authgrants.GrantType(op.GType)
 			text := c07Text(op.Cmd, op.Var)
-			in := verifAuthzIntent(user, op.Key, gt, text, verifAuthzAt(op.Start), verifAuthzAt(op.Exp))
+			startMs, expMs := int64(op.Start)*1000+int64(op.StartMs), int64(op.Exp)*1000+int64(op.ExpMs)
+			in := verifAuthzIntent(user, op.Key, gt, text, verifAuthzAtMs(startMs), verifAuthzAtMs(expMs))
 			if err := z.S.AddAuthGrant(in); err != nil {
 				v.Inconclusive = fmt.Sprintf("step %d: AddAuthGrant failed with authgrants enabled: %v", i, err)
 				return
@@ -290,17 +314,31 @@ func c07Run(c c07Case, v *vlib.Verdict) {
 			consumed[uk] = false
 			labels[fmt.Sprintf("grant:type=%d", op.GType)] = true
 			switch {
-			case op.Exp <= op.Start:
+			case expMs <= startMs:
 				labels["grant:empty-interval"] = true
-			case op.Start > nowSec:
+			case startMs > nowMs:
 				labels["grant:starts-in-future"] = true
-			case op.Exp <= nowSec:
+			case expMs <= nowMs:
 				labels["grant:already-expired"] = true
 			}
+			if startMs%1000 != 0 {
+				labels["grant:sub-second-start"] = true
+			}
+			if expMs%1000 != 0 {
+				labels["grant:sub-second-expiry"] = true
+			}
 		case "connect":
-			user := verifAuthzUsers[op.User]
+			user := verifAuthzUsers[op.User%len(verifAuthzUsers)]
 			uk := c07UK{user, op.Key}
 			model := stored[uk]
+			if len(model) == 0 {
+				for o, gs := range stored {
+					if len(gs) > 0 && o.k == op.Key && verifAuthzNear(o.u, user) {
+						labels["connect-as-near-collision-of-a-granted-user"] = true
+						nt = true
+					}
+				}
+			}
 			inSet := z.InKeySet(op.Key)
 			granted, viaGrant, actions := verifAuthzLogin(z.S, user, verifAuthzKey(op.Key))
 			if granted && !viaGrant {
@@ -327,7 +365,7 @@ func c07Run(c c07Case, v *vlib.Verdict) {
 					nt = true
 				}
 				if len(model) > 0 {
-					v.Failf("C07:live-grant-refused", "step %d: connect (%s,K%d) refused although %d grants are stored for the pair", i, user, op.Key+1, len(model))
+					v.Failf("C07:live-grant-refused", "step %d: connect (%q,K%d) refused although %d grants are stored for the pair", i, user, op.Key+1, len(model))
 					return
 				}
 				continue
@@ -347,7 +385,7 @@ func c07Run(c c07Case, v *vlib.Verdict) {
 						}
 					}
 				}
-				v.Failf("C07:admitted-without-grant:"+why, "step %d: connect (%s,K%d) admitted, model holds no grant for the pair (stored: %v)", i, user, op.Key+1, stored)
+				v.Failf("C07:admitted-without-grant:"+why, "step %d: connect (%q,K%d) admitted, model holds no grant for the pair (stored: %v)", i, user, op.Key+1, stored)
 				return
 			}
 			got := make([]c07Grant, len(actions))
@@ -355,7 +393,7 @@ func c07Run(c c07Case, v *vlib.Verdict) {
 				got[j] = c07FromReal(a)
 			}
 			if extra, missing := c07Minus(got, model), c07Minus(model, got); len(extra)+len(missing) > 0 {
-				v.Failf("C07:session-grants-differ-from-stored", "step %d: connect (%s,K%d): session received %v beyond and lacks %v of the grants stored for the pair", i, user, op.Key+1, extra, missing)
+				v.Failf("C07:session-grants-differ-from-stored", "step %d: connect (%q,K%d): session received %v beyond and lacks %v of the grants stored for the pair", i, user, op.Key+1, extra, missing)
 				return
 			}
 			delete(stored, uk)
@@ -367,7 +405,7 @@ func c07Run(c c07Case, v *vlib.Verdict) {
 			// after login the server map holds no grant for (user, key): an immediate
 			// second admission must fail (no-op when the property holds).
 			if again, err := z.S.AuthorizeKeyAuthGrant(user, verifAuthzKey(op.Key)); err == nil {
-				v.Failf("C07:grant-reusable-after-login", "step %d: second admission of (%s,K%d) right after login succeeded with %d grants", i, user, op.Key+1, len(again))
+				v.Failf("C07:grant-reusable-after-login", "step %d: second admission of (%q,K%d) right after login succeeded with %d grants", i, user, op.Key+1, len(again))
 				return
 			}
 			// ... and the key is gone from the transport key set once no stored grant names it
@@ -390,7 +428,24 @@ func c07Run(c c07Case, v *vlib.Verdict) {
 			case 2:
 				text, op.Shell = c07PFRemote, false
 			}
-			now := verifAuthzAt(nowSec).UnixNano()
+			now := verifAuthzAtMs(nowMs).UnixNano()
+			for _, g := range s.live {
+				// the instants a whole-second (or otherwise rounded) comparison gets wrong
+				const sec = int64(time.Second)
+				floor := func(x int64) int64 { return x - ((x%sec)+sec)%sec }
+				if g.kindMatches(text, op.Shell) {
+					switch {
+					case now < g.Start && now >= floor(g.Start):
+						labels["request:in-the-second-of-the-start-but-before-it"] = true
+					case now == g.Start:
+						labels["request:exactly-at-start"] = true
+					case now == g.Exp:
+						labels["request:exactly-at-expiry"] = true
+					case now > g.Exp && floor(now) == floor(g.Exp):
+						labels["request:in-the-second-of-the-expiry-but-after-it"] = true
+					}
+				}
+			}
 			var candidates []c07Grant
 			for _, g := range s.live {
 				if g.kindMatches(text, op.Shell) && g.inTime(now) {
@@ -432,14 +487,14 @@ func c07Run(c c07Case, v *vlib.Verdict) {
 				labels["must-refuse:"+why] = true
 			}
 			if len(added) > 0 {
-				v.Failf("C07:grant-appeared-in-session", "step %d: session (%s,K%d) gained grants %v by a request", i, s.user, s.key+1, added)
+				v.Failf("C07:grant-appeared-in-session", "step %d: session (%q,K%d) gained grants %v by a request", i, s.user, s.key+1, added)
 				return
 			}
 			if allowed {
 				// The grant that disappeared from the session is the one the code used to
 				// authorize the request: it must be a valid match, and exactly one.
-				ctx := fmt.Sprintf("step %d: session (%s,K%d) at t=%+ds: exec request (shell=%v, cmd=%q) allowed; unused grants of the session before: %v; used before: %v; removed by the request: %v",
-					i, s.user, s.key+1, nowSec, op.Shell, text, s.live, s.used, removed)
+				ctx := fmt.Sprintf("step %d: session (%q,K%d) at t=%s: exec request (shell=%v, cmd=%q) allowed; unused grants of the session before: %v; used before: %v; removed by the request: %v",
+					i, s.user, s.key+1, c07Ms(nowMs), op.Shell, text, s.live, s.used, removed)
 				switch {
 				case len(removed) == 1 && removed[0].kindMatches(text, op.Shell) && removed[0].inTime(now):
 					s.used = append(s.used, removed[0])
@@ -483,7 +538,7 @@ func c07Run(c c07Case, v *vlib.Verdict) {
 				}
 				s.live = after
 				if len(candidates) > 0 {
-					v.Failf("C07:matching-grant-refused", "step %d: session (%s,K%d) at t=%+ds: request (shell=%v, cmd=%q) refused although grant %v matches", i, s.user, s.key+1, nowSec, op.Shell, text, candidates[0])
+					v.Failf("C07:matching-grant-refused", "step %d: session (%q,K%d) at t=%s: request (shell=%v, cmd=%q) refused although grant %v matches", i, s.user, s.key+1, c07Ms(nowMs), op.Shell, text, candidates[0])
 					return
 				}
 			}
@@ -509,7 +564,7 @@ func c07Run(c c07Case, v *vlib.Verdict) {
 			}
 		}
 		if extra, missing := c07Minus(got, stored[uk]), c07Minus(stored[uk], got); len(extra)+len(missing) > 0 {
-			v.Failf("C07:grant-map-differs-from-model", "final drain (%s,K%d): server holds %v beyond and lacks %v of the model's grants", uk.u, uk.k+1, extra, missing)
+			v.Failf("C07:grant-map-differs-from-model", "final drain (%q,K%d): server holds %v beyond and lacks %v of the model's grants", uk.u, uk.k+1, extra, missing)
 			return
 		}
 	}
@@ -527,9 +582,13 @@ var c07OpWeights = []string{
 	"advance", "advance", "advance",
 }
 
-func c07GenGrant(t *rapid.T) c07Op {
+// c07MsBias: sub-second parts on a quarter-second grid plus the extremes, so that the clock and the grant
+// bounds often coincide exactly or fall into the same second on either side of each other.
+var c07MsBias = []int{0, 0, 0, 250, 250, 500, 500, 750, 1, 999}
+
+func c07GenGrant(t *rapid.T, cast []int) c07Op {
 	op := c07Op{Op: "grant"}
-	op.User = rapid.SampledFrom([]int{0, 0, 0, 1}).Draw(t, "user")
+	op.User = cast[rapid.SampledFrom([]int{0, 0, 0, 1}).Draw(t, "user")%len(cast)]
 	op.Key = rapid.SampledFrom([]int{0, 0, 0, 1, 1, 2}).Draw(t, "key")
 	op.GType = rapid.SampledFrom([]int{1, 1, 2, 2, 2, 2, 2, 3, 4, 5, 9}).Draw(t, "gtype")
 	if op.GType == 2 {
@@ -547,6 +606,11 @@ func c07GenGrant(t *rapid.T) c07Op {
 		op.Start = rapid.IntRange(-3, 12).Draw(t, "start")
 		op.Exp = rapid.IntRange(-3, 15).Draw(t, "exp")
 	}
+	// half of the grants keep whole-second bounds; the others get sub-second parts
+	if rapid.IntRange(0, 1).Draw(t, "subsecond") == 1 {
+		op.StartMs = rapid.SampledFrom(c07MsBias).Draw(t, "startms")
+		op.ExpMs = rapid.SampledFrom(c07MsBias).Draw(t, "expms")
+	}
 	return op
 }
 
@@ -555,6 +619,12 @@ func c07GenGrant(t *rapid.T) c07Op {
 // later operations at them; nothing of the code under test runs here.
 func c07Gen(t *rapid.T) c07Case {
 	c := c07Case{Now0: rapid.IntRange(0, 3).Draw(t, "now0")}
+	cast := verifAuthzGenCast(t)
+	// a third of the histories run on a whole-second clock throughout
+	wholeClock := rapid.IntRange(0, 2).Draw(t, "whole-second-clock") == 0
+	if !wholeClock {
+		c.Now0Ms = rapid.SampledFrom(c07MsBias).Draw(t, "now0ms")
+	}
 	n := rapid.IntRange(3, 30).Draw(t, "nops")
 	var granted []c07Op // grant ops drawn so far
 	connects := 0
@@ -567,14 +637,18 @@ func c07Gen(t *rapid.T) c07Case {
 		op := c07Op{Op: kind}
 		switch kind {
 		case "grant":
-			op = c07GenGrant(t)
+			op = c07GenGrant(t, cast)
 			granted = append(granted, op)
 		case "connect":
-			if rapid.IntRange(0, 9).Draw(t, "aimed") < 7 {
+			switch aim := rapid.IntRange(0, 9).Draw(t, "aimed"); {
+			case aim < 6: // a pair that received a grant
 				g := rapid.SampledFrom(granted).Draw(t, "pair")
 				op.User, op.Key = g.User, g.Key
-			} else {
-				op.User = rapid.SampledFrom([]int{0, 0, 1, 2}).Draw(t, "user")
+			case aim < 8: // the key of a pair that received a grant, as another user of the cast (often a near-collision of the name)
+				g := rapid.SampledFrom(granted).Draw(t, "pair")
+				op.User, op.Key = cast[rapid.IntRange(0, len(cast)-1).Draw(t, "other-user")], g.Key
+			default:
+				op.User = cast[rapid.SampledFrom([]int{0, 0, 1, 2, 3}).Draw(t, "user")%len(cast)]
 				op.Key = rapid.SampledFrom([]int{0, 0, 1, 1, 2, 3}).Draw(t, "key")
 			}
 			connects++
@@ -598,6 +672,9 @@ func c07Gen(t *rapid.T) c07Case {
 			}
 		case "advance":
 			op.Dt = rapid.SampledFrom([]int{0, 1, 1, 2, 3, 5, 10}).Draw(t, "dt")
+			if !wholeClock {
+				op.DtMs = rapid.SampledFrom(c07MsBias).Draw(t, "dtms")
+			}
 		}
 		if op.Op == "request" {
 			r := op
@@ -736,13 +813,13 @@ func c07iRun(c c07iCase, v *vlib.Verdict) {
 	if confirmed {
 		minted, _ := z.S.AuthorizeKeyAuthGrant(user, verifAuthzKey(key))
 		v.Failf("C07:allowed-without-matching-grant:grant-issuing",
-			"session (alice,K1) admitted through one grant of type %d (valid=%v) sent an intent (type %d, user %s, delegate K%d) over its own AuthGrant tube: checkIntent and AddAuthGrant returned nil, the server now stores %d new grant(s) for (%s,K%d); no grant of the session authorizes issuing grants",
+			"session (alice,K1) admitted through one grant of type %d (valid=%v) sent an intent (type %d, user %s, delegate K%d) over its own AuthGrant tube: checkIntent and AddAuthGrant returned nil, the server now stores %d new grant(s) for (%q,K%d); no grant of the session authorizes issuing grants",
 			c.HeldType, c.HeldValid, c.WantType, user, key+1, len(minted), user, key+1)
 		return
 	}
 	// refused: nothing may have been stored
 	if minted, err := z.S.AuthorizeKeyAuthGrant(user, verifAuthzKey(key)); err == nil {
-		v.Failf("C07:refused-intent-stored", "refused intent left %d grant(s) for (%s,K%d) in the server map", len(minted), user, key+1)
+		v.Failf("C07:refused-intent-stored", "refused intent left %d grant(s) for (%q,K%d) in the server map", len(minted), user, key+1)
 	}
 }
 
